@@ -117,6 +117,16 @@ func runPath(P *Prog, sol, alt, cross *Solver, crossRate int, root Root, prefix 
 	case *Failure:
 		pr.Status = "fail"
 		r.Env = append([]int64{}, e.envTrace...)
+		r.STrace = append([]TraceEv{}, e.strace...)
+		if e.ss != nil {
+			// operations that threads were parked at when the run ended (attempted, never performed): natively
+			// they must not be reached before everything that was performed
+			for _, t := range e.ss.threads {
+				if !t.done && t.opSite != "" {
+					r.STrace = append(r.STrace, TraceEv{Role: t.role, Site: t.opSite})
+				}
+			}
+		}
 		r.LibPrio = e.libPrio
 		pr.Failure = r
 		pr.Reason = r.Kind + ": " + r.Msg + " @" + r.Site
